@@ -624,6 +624,12 @@ class Effects(object):
             t = a.target
             tt = self.cg.typer.expr_type(t, fi)
             listy = bool(tt.prims & {"list", "dict", "set"}) and not (tt.prims & {"str", "int", "float", "bool"})
+            if not listy and isinstance(a.op, ast.Add):
+                # `x += [..]` / `x += [..] * n`: the right operand is a list, so x is one and is extended in place
+                rv = a.value
+                while isinstance(rv, ast.BinOp) and isinstance(rv.op, ast.Mult):
+                    rv = rv.left if isinstance(rv.left, (ast.List, ast.ListComp)) else rv.right
+                listy = isinstance(rv, (ast.List, ast.ListComp))
             if isinstance(t, ast.Name):
                 if listy:
                     for o in st.vars.get(t.id, frozenset()):
